@@ -225,7 +225,10 @@ def from_dataset(
     """
     try:
         items = list(examples.items())
-    except ItemsNotDefined:
+    except (ItemsNotDefined, NotImplementedError):
+        # NotImplementedError: A stage that reads its input by index (slice,
+        # shuffle, sort, cache, catch, ...) asked a dataset without keys
+        # (e.g. a list) for its keys.
         return from_list(list(examples),
                          immutable_warranty=immutable_warranty, name=name)
     else:
